@@ -19,6 +19,7 @@ import (
 	"sync/atomic"
 	"time"
 
+	"github.com/hprose/hprose-golang/v3/internal/verifhook"
 	"github.com/hprose/hprose-golang/v3/rpc/core"
 )
 
@@ -67,6 +68,9 @@ func NewRateLimiter(permitsPerSecond int64, options ...Option) *RateLimiter {
 func (l *RateLimiter) Acquire(ctx context.Context, tokens int) (err error) {
 	now := time.Now().UnixNano()
 	last := atomic.LoadInt64(&l.next)
+	if verifhook.On {
+		verifhook.Gate("limiter.rateLoaded", l)
+	}
 	permits := float64(now-last)/l.interval - float64(tokens)
 	if permits > l.maxPermits {
 		permits = l.maxPermits
